@@ -58,6 +58,14 @@ def native_fit_replay(cls):
                 x = np.linspace(data.min(), data.max(), 7)
                 if not np.allclose(m.probability_density(x), ref.evaluate(x)):
                     bad.append('bw_method=%r: density differs from the kernel estimate' % (bw,))
+                # with sample_size: the kernel estimate of the stored resample, under the REQUESTED bandwidth rule
+                m = C(sample_size=150, bw_method=bw)
+                m.fit(data)
+                stored = np.asarray(m._params['dataset'], dtype=float).ravel()
+                ref = gaussian_kde(stored, bw_method=bw)
+                if len(stored) != 150 or not np.allclose(m.probability_density(x), ref.evaluate(x)):
+                    bad.append('sample_size=150, bw_method=%r: density differs from the kernel estimate of the %d stored '
+                               'points under that rule' % (bw, len(stored)))
         return {'confirmed': bool(bad), 'detail': '; '.join(bad) if bad else 'native fits agree with the contract'}
     return rep
 
